@@ -173,11 +173,13 @@ Definition traces_view (p : profile) : list (list (string * bool)) :=
    as a whole" is decided here without any regexp oracle: *)
 Definition alt_match (e n : string) : bool := existsb (String.eqb n) (split_on "|"%char e).
 
+(* the two expressions are handed to C11's Prune under the keys "D" and "K" *)
 Definition ru_M (p : profile) (rx n : string) : bool :=
-  if String.eqb rx (M_Prune.anchor (p_dropframes p)) then alt_match (p_dropframes p) n else alt_match (p_keepframes p) n.
+  if String.eqb rx "D" then alt_match (p_dropframes p) n else alt_match (p_keepframes p) n.
 
 Definition remove_uninteresting_alt (p : profile) : profile :=
-  match M_Prune.remove_uninteresting (ru_M p) (fun _ => true) p with Some q => q | None => p end.
+  if str_empty (p_dropframes p) then p
+  else M_Prune.prune (ru_M p) p "D" (if str_empty (p_keepframes p) then None else Some "K"%string).
 
 (* some function of the profile may be dropped: its simplified name is an alternative of drop_frames
    and not one of keep_frames *)
